@@ -216,19 +216,16 @@ class RainfallClimateNetwork(ClimateNetwork):
         :return: A bool array with False for every value in the rainfall
                  data, which are zero or outside the top_event Interval.
         """
-        rainfall_copy = rainfall.copy()
-
         m = len(rainfall) * len(rainfall.T)
 
-        onelist = rainfall.reshape(m)
+        #  sorted copy of all values (the caller's array is left untouched)
+        onelist = rainfall.flatten()
+        onelist.sort()
 
-        onelist = onelist[onelist.sort()][0]
+        #  positions in the sorted list have to be integers
+        downlimit = int(m * event_threshold[0] // 1)
 
-        downlimit = m * event_threshold[0] // 1
-
-        uplimit = m * event_threshold[1] // 1
-
-        rainfall = rainfall_copy
+        uplimit = int(m * event_threshold[1] // 1)
 
         down_mask = rainfall >= onelist[downlimit]
 
